@@ -5,7 +5,8 @@
      * a keyword value travels unchanged into the kwargs of the _LazyFunction node that consumes it
        (Pipeline._get_func_args / _execute_func);
      * _LazyFunction.__init__ under construct_dag(): `for arg in kwargs.values(): add_edge(arg)` where add_edge
-       records an edge for a _LazyFunction and for the _LazyFunction ITEMS of an iterable - ONE level deep only;
+       records an edge for a _LazyFunction and, walking dict values / tuples / lists / sets recursively exactly like
+       evaluate_lazy (repaired code), for every _LazyFunction inside a container at ANY depth;
      * evaluate_lazy resolves containers recursively (any depth), in order;
      * the cache key of the task-graph cache contains the keyword value itself (the same objects => the same key).
    REPRESENTATION: values stay `str`.  A keyword value with deferred objects inside is a TEMPLATE: the canonical
@@ -13,7 +14,7 @@
    Substituting every marker by the evaluated value of its node gives exactly canon(evaluate_lazy(value)).
    A tuple is written like a list with the extra character \003 after the bracket (dropped by the substitution): the
    cache key distinguishes lists from tuples, the canonical value does not.
-   Markers at bracket depth <= 1 get an edge (add_edge), deeper ones do not; all of them are dependencies.
+   Every marker gets an edge (add_edge, repaired code) and every marker is a dependency.
    Plain strings inside templates must not contain '[' ']' or the two marker characters (generator guarantee). *)
 From Verif Require Import Base.Prelude Base.StrOrd Base.Graph Model.Pipe Model.Lazy Model.LazySeq.
 
@@ -53,7 +54,7 @@ Fixpoint scan (v : str) (depth : nat) (cur : option nat) (maxd : nat) : list nat
           else scan t depth None maxd
       end
   end.
-Definition refs_shallow (v : str) : list nat := scan v 0 None 1.        (* what add_edge sees *)
+Definition refs_edge (v : str) : list nat := scan v 0 None 1000.         (* what add_edge sees (repaired: any depth) *)
 Definition refs_all (v : str) : list nat := scan v 0 None 1000.          (* what evaluate_lazy evaluates *)
 
 Definition tmpl_refs (f : str -> list nat) (args : list (str * larg)) : list nat :=
@@ -62,12 +63,12 @@ Definition tmpl_refs (f : str -> list nat) (args : list (str * larg)) : list nat
 (* the edges add_edge records for the container / bare deferred keyword values of the nodes from..end *)
 Definition tmpl_edges (h : heap) (from : nat) : list (nat * nat) :=
   flat_map (fun i => match nth_error h i with
-                     | Some nd => map (fun r => (r, i)) (tmpl_refs refs_shallow (nargs nd))
+                     | Some nd => map (fun r => (r, i)) (tmpl_refs refs_edge (nargs nd))
                      | None => []
                      end) (seq from (length h - from)).
 
-(* dependencies of a node: depth <= 1 (recorded) and at any depth (evaluated) *)
-Definition deps_shallow (nd : node) : list nat := refs_of (nargs nd) ++ tmpl_refs refs_shallow (nargs nd).
+(* dependencies of a node: those recorded as edges and those evaluated (the same since the repair) *)
+Definition deps_edge (nd : node) : list nat := refs_of (nargs nd) ++ tmpl_refs refs_edge (nargs nd).
 Definition deps_all (nd : node) : list nat := refs_of (nargs nd) ++ tmpl_refs refs_all (nargs nd).
 
 Section EvalT.
